@@ -324,7 +324,7 @@ def run(chk):
     t_build = time.time() - t_b0
     quick = chk.tier == "quick"
     broken_scope = bool(chk.broken)
-    t_budget = (32 if quick else 420) * (3 if broken_scope and quick else 1)
+    t_budget = (40 if quick else 420) * (3 if broken_scope and quick else 1)
     t_start = time.time()
     diffs = E.shape_check()
     if diffs:
@@ -333,7 +333,17 @@ def run(chk):
     if not ok_st:
         chk.tie_broken("k3_time self-test failed", st_facts)
     bound = 2 if quick else 3
-    cases = list(FIXED) + list(PFIXED) + [gen_case(chk.rng) for _ in range(40 if quick else 400)]
+    gen = [gen_case(chk.rng) for _ in range(40 if quick else 400)]
+    cases = list(FIXED) + list(PFIXED) + gen
+    cls_of = {id(c): "F" for c in FIXED}
+    cls_of.update({id(c): "P" for c in PFIXED})
+    if not quick:
+        # the thorough budget ends long before the last case: interleave the three classes (one fixed, one
+        # oracle-only fixed, three generated per round) so that each gets its share of it
+        f, p_, g, cases = list(FIXED), list(PFIXED), list(gen), []
+        while f or p_ or g:
+            cases += f[:1] + p_[:1] + g[:3]
+            f, p_, g = f[1:], p_[1:], g[3:]
     coq_cases, coq_meta = [], []
     hist = {"coarse": 0, "fine": 0, "random": 0}
     distinct = set()
@@ -345,7 +355,7 @@ def run(chk):
     notes = {}
     per_case_limit = 12 if quick else 400
     fixed_limit = 60 if quick else 3000
-    pfixed_limit = 24 if quick else 1500
+    pfixed_limit = 24 if quick else 600
     fam = {}
 
     def judge(case, r, fine, sched):
@@ -429,7 +439,7 @@ def run(chk):
             if time.time() - t_start > t_budget:
                 chk.notes.append(f"time budget reached after {ci} of {len(cases)} cases")
                 break
-            lim = fixed_limit if ci < len(FIXED) else pfixed_limit if ci < len(FIXED) + len(PFIXED) else per_case_limit
+            lim = {"F": fixed_limit, "P": pfixed_limit}.get(cls_of.get(id(case)), per_case_limit)
             box = {}
 
             def once(chooser, fine):
